@@ -316,11 +316,13 @@ func (c *codecV2) EncodeRequest(req *tikvrpc.Request) (*tikvrpc.Request, error) 
 	case tikvrpc.CmdCop:
 		r := *req.Cop()
 		r.Ranges = c.encodeCopRanges(r.Ranges)
+		r.VersionedRanges = c.encodeVersionedCopRanges(r.VersionedRanges)
 		r.Tasks = c.encodeStoreBatchTasks(r.Tasks)
 		req.Req = &r
 	case tikvrpc.CmdCopStream:
 		r := *req.Cop()
 		r.Ranges = c.encodeCopRanges(r.Ranges)
+		r.VersionedRanges = c.encodeVersionedCopRanges(r.VersionedRanges)
 		r.Tasks = c.encodeStoreBatchTasks(r.Tasks)
 		req.Req = &r
 	case tikvrpc.CmdMvccGetByKey:
@@ -887,6 +889,21 @@ func (c *codecV2) encodeCopRanges(ranges []*coprocessor.KeyRange) []*coprocessor
 	return newRanges
 }
 
+func (c *codecV2) encodeVersionedCopRanges(ranges []*coprocessor.VersionedKeyRange) []*coprocessor.VersionedKeyRange {
+	if ranges == nil {
+		return nil
+	}
+	newRanges := make([]*coprocessor.VersionedKeyRange, 0, len(ranges))
+	for _, r := range ranges {
+		nr := *r
+		if r.Range != nil {
+			nr.Range = c.encodeCopRange(r.Range)
+		}
+		newRanges = append(newRanges, &nr)
+	}
+	return newRanges
+}
+
 func (c *codecV2) decodeRegions(regions []*metapb.Region) ([]*metapb.Region, error) {
 	var err error
 	for _, region := range regions {
@@ -977,6 +994,7 @@ func (c *codecV2) encodeStoreBatchTasks(tasks []*coprocessor.StoreBatchTask) []*
 	for _, task := range tasks {
 		t := *task
 		t.Ranges = c.encodeCopRanges(t.Ranges)
+		t.VersionedRanges = c.encodeVersionedCopRanges(t.VersionedRanges)
 		encodedTasks = append(encodedTasks, &t)
 	}
 	return encodedTasks
